@@ -8,7 +8,7 @@ from typing import List, Optional
 
 from harness.core import worker_main
 
-from krrood.entity_query_language.entity import entity, set_of, let, and_, or_, not_, in_, contains, exists, for_all
+from krrood.entity_query_language.entity import entity, set_of, let, and_, or_, not_, in_, contains, exists, for_all, flatten
 from krrood.entity_query_language.quantify_entity import an, the
 from krrood.entity_query_language.result_quantification_constraint import Exactly
 
@@ -24,6 +24,22 @@ class O:
 
     def __repr__(self):
         return self.name
+
+    @property
+    def pair(self):
+        return (self.a, self.b)
+
+    def twice_a(self):
+        return 2 * self.a
+
+    def plus(self, k):
+        return self.a + k
+
+
+# truth value of the world's objects, switchable per case: a domain element may be a falsy object (a class with __bool__ /
+# __len__, e.g. an empty container-like value); what a query returns does not depend on it
+FALSY = [False]
+O.__bool__ = lambda self: not FALSY[0]
 
 
 def make_world():
@@ -57,6 +73,12 @@ def term(t, V):
         return getattr(V[t[1]], t[2])
     if k == "attr2":
         return getattr(getattr(V[t[1]], t[2]), t[3])
+    if k == "index":
+        return getattr(V[t[1]], t[2])[t[3]]
+    if k == "call":
+        return getattr(V[t[1]], t[2])()
+    if k == "call1":
+        return getattr(V[t[1]], t[2])(t[3])
     raise ValueError(t)
 
 
@@ -92,6 +114,11 @@ def build(e, V, variant):
 def make_vars(dom):
     V = {v: let(O, [WORLD[n] for n in dom[v]], name=v) for v in ("x", "y")}
     V["__fresh__"] = lambda v: let(O, [WORLD[n] for n in dom[v]], name=v + "_q")
+    if dom.get("__terms__"):
+        z = let(O, list(WORLD.values()), name="z")
+        V["s"] = an(entity(z, z.a == 0))          # EQLTerms.tla: a nested query used as a variable
+    if dom.get("__flat__"):
+        V["f"] = flatten(V["y"].items)        # EQLFlat.tla: a derived variable over the elements of y.items
     return V
 
 
@@ -126,6 +153,7 @@ def rows_of(results, V, sel, d):
 def handle(case):
     variant = case.get("variant", 0)
     out = {"rows": [], "errors": [], "extra": [], "rows2": []}
+    FALSY[0] = bool(case.get("falsy"))
     for c in case["cases"]:
         q = None
         try:
@@ -174,6 +202,7 @@ def handle(case):
                     seq.append(type(ex).__name__)
             ext["shared_vars_sequence"] = seq
         out["extra"].append(ext)
+    FALSY[0] = False
     return out
 
 
